@@ -315,6 +315,17 @@ func execCand(r *mon.Run, c *Cand, rng *rand.Rand) {
 			before = append(before, b.Do(q.Verb, q.Path, "", nil))
 		}
 	}
+	if c.TgtRule != nil {
+		// the rule of the method registered just before the refused one
+		// must not become routable either
+		if tt, perr := tmplref.Parse(c.TgtRule.Tmpl); perr == nil {
+			for k := 0; k < 2; k++ {
+				q := Req{Verb: reqVerbFor(rng, c.TgtRule.Verb), Path: Instantiate(rng, tt, reqDesc(), false).Path()}
+				probes = append(probes, q)
+				before = append(before, b.Do(q.Verb, q.Path, "", nil))
+			}
+		}
+	}
 	rerr, pi := b.Register(cs)
 	if pi != nil {
 		r.Violate(pi.Key(), fmt.Sprintf("registering %s %q (class %s/%s) panicked: %s", c.Rule.Verb, c.Rule.Tmpl, cl, reason, pi.Value), c)
@@ -543,6 +554,34 @@ func RunC16(r *mon.Run) {
 			}
 			execCand(r, cand, rng)
 		}
+	}
+	// (f) late failure: Tgt's valid rule extends a base rule (so its nodes
+	// hang below nodes the base already owns, variables included), then Oth's
+	// rule is refused: nothing of Tgt's may be left behind
+	for i := 0; i < r.Pick(40, 600); i++ {
+		base := baseFor()
+		if base == nil || len(base.Methods) == 0 {
+			continue
+		}
+		m := base.Methods[rng.Intn(len(base.Methods))]
+		br := m.Rules[rng.Intn(len(m.Rules))]
+		if strings.Contains(br.Tmpl, "**") || strings.LastIndex(br.Tmpl, ":") > strings.LastIndex(br.Tmpl, "}") && strings.LastIndex(br.Tmpl, ":") > strings.LastIndex(br.Tmpl, "/") {
+			continue
+		}
+		c16seq++
+		tr := RuleSpec{Verb: pick(rng, ruleVerbs), Tmpl: fmt.Sprintf("%s/lf%d", br.Tmpl, c16seq), Via: "annotation"}
+		var bad RuleSpec
+		switch rng.Intn(4) {
+		case 0:
+			bad = RuleSpec{Verb: "GET", Tmpl: fmt.Sprintf("%s/lg%d/{no_such_field}", br.Tmpl, c16seq), Via: "annotation"}
+		case 1:
+			bad = RuleSpec{Verb: "GET", Tmpl: fmt.Sprintf("%s/lg%d/{a", br.Tmpl, c16seq), Via: "annotation"}
+		case 2:
+			bad = RuleSpec{Verb: tr.Verb, Tmpl: tr.Tmpl, Via: "annotation"}
+		default:
+			bad = RuleSpec{Verb: "POST", Tmpl: fmt.Sprintf("%s/lg%d", br.Tmpl, c16seq), Body: "no_such_body", Via: "annotation"}
+		}
+		execCand(r, &Cand{Rule: bad, TgtRule: &tr, Base: base, Origin: "late-failure"}, rng)
 	}
 	// Tgt (registered first) binds a concrete verb on the implicit path of
 	// Oth, which is registered after it: overlap with an any-verb binding is
